@@ -6,7 +6,7 @@ from .encoders import encode_multipart
 from .wsgi import make_environ
 
 KINDS = ['ok', 'ok_json_accept', 'notfound', 'notfound_json', 'wrongverb', 'badpath', 'badchunk', 'oversized', 'badmultipart', 'badjson', 'crash', 'raised', 'gen', 'form',
-         'cookie_then_abort', 'head_ok', 'rex', 'typed', 'expires', 'longpath', 'longquery', 'status_str', 'status_int', 'signed', 'urlinfo', 'auth', 'bigform', 'chunked_ok', 'header_case', 'inject_arg', 'notmodified', 'nocontent', 'blog_direct', 'dm_info', 'resp_copy', 'form_fixed', 'sess_mutate']
+         'cookie_then_abort', 'head_ok', 'rex', 'typed', 'expires', 'longpath', 'longquery', 'status_str', 'status_int', 'signed', 'urlinfo', 'auth', 'bigform', 'chunked_ok', 'header_case', 'inject_arg', 'notmodified', 'nocontent', 'blog_direct', 'dm_info', 'resp_copy', 'form_fixed', 'sess_mutate', 'qs_reassign', 'api_404', 'api_item', 'neg_cl', 'hugepath']
 
 
 _DEFAULT_ERRORS = []
@@ -236,6 +236,33 @@ def make_app(probe=None, config=None, private_errors=False, app=None, foreign=No
         d.setdefault('seen', []).append(rq.query.get('q', ''))
         return 'sess visits=%d seen=%d' % (d['visits'], len(d['seen']))
 
+    @app.route('/reassign', overwrite=True)
+    def reassign():
+        # a handler that corrects request data through the request object after having looked at it (cached views must follow, for THIS request)
+        q1 = rq.query.get('q', '')
+        c1 = rq.get_cookie('seen', 'none')
+        rq['QUERY_STRING'] = 'q=' + q1 + 'y'
+        p('reassign:mid')
+        rq['HTTP_COOKIE'] = 'seen=re' + q1
+        q2 = rq.query.get('q', '')
+        c2 = rq.get_cookie('seen', 'none')
+        return 'reassign %s->%s %s->%s' % (q1, q2, c1, c2)
+
+    @app.route('/api/item/<x>', overwrite=True)
+    def api_item(x):
+        return 'api item %s' % x
+
+    # route hooks: an on_route hook on a non-root rule, and a per-prefix 404 handler
+    def info_hook(route):
+        rs.headers['X-Info-Hook'] = 'hook %s %s' % (route, rq.query.get('q', ''))
+    app.on_route('/info', info_hook)
+
+    def api_404(route, params):
+        rs.status = 404
+        rs.headers['X-Api'] = 'api-404'
+        return 'api 404 %s %s' % (route, rq.path)
+    app.error(404, rule='/api')(api_404)
+
     @app.route('/abort', overwrite=True)
     def ab():
         rs.set_cookie('pre', 'abort' + rq.query.get('q', ''))
@@ -299,6 +326,15 @@ def make_env(kind, n, stream_cls=Stream):
         return _e('POST', '/body', q, stream=stream_cls(wire), content_length=None, headers={'Transfer-Encoding': 'chunked'})
     if kind == 'resp_copy':
         return _e('GET', '/rcopy', q)
+    if kind == 'qs_reassign':
+        return _e('GET', '/reassign', q, headers={'Cookie': 'seen=v%d' % n})
+    if kind == 'api_404':
+        return _e('GET', '/api/missing/%d' % n, q)
+    if kind == 'api_item':
+        return _e('GET', '/api/item/i%d' % n, q)
+    if kind == 'neg_cl':
+        # a negative declared length, different for every request
+        return _e('POST', '/body', q, stream=stream_cls(b'ignored %d' % n), content_length=-(2 + n))
     if kind == 'form_fixed':
         # every request of this kind uses the SAME boundary string (only the values differ)
         data, _ = encode_multipart('fixed-boundary-7d1', [{'name': 'a', 'value': b'v%d' % n}, {'name': 'b', 'value': b'w' * (n % 5)}], b'', b'\r\n')
@@ -328,6 +364,8 @@ def make_env(kind, n, stream_cls=Stream):
         return _e('GET', '/expires', 'n=%d' % n)
     if kind == 'longpath':
         return _e('GET', '/missing/' + 'p' * (4000 + 97 * (n % 13)) + str(n), q)
+    if kind == 'hugepath':
+        return _e('GET', '/missing/' + 'p' * (8200 + 1000 * (n % 9)) + str(n), q, headers={'Cookie': 'seen=h%d' % n})
     if kind == 'longquery':
         return _e('GET', '/ok', q + '&pad=' + 'q' * (3000 + 500 * (n % 7)))
     if kind == 'status_str':
